@@ -394,7 +394,7 @@ func (m *monC10) Finish(rc *RunCtx) {
 }
 
 func init() {
-	simProps["C10"] = simProp{checkSpec{Prop: "C10", Level: "exploration", NQuick: 400, NThorough: 12000,
+	simProps["C10"] = simProp{checkSpec{Prop: "C10", Level: "exploration", NQuick: 2000, NThorough: 40000,
 		Rule:   "cases = generated projects with 0-14 fertilisations over every row of the fertiliser table, 0-10 tillages in fallow windows, 0-12 irrigations, same-day pairs, consecutive days, events before the start and after the end, events of other fields in the same files, all four date formats; the management event log of the real run is compared per kind with a reference reader of the generated schedule (exactly once, in order, on the due day) and the state jumps on the due day with the amounts from the fertiliser table; non-trivial = >30 days and at least one scheduled action",
 		Floors: []string{"fertilization_events_checked", "tillage_events_checked", "irrigation_events_checked", "sowing_events_checked", "harvest_events_checked", "fertiliser_amounts_checked", "irrigation_days_checked", "fertilisations_on_start_day", "same_day_pairs", "same_day_pair_followed_by_next_day_event", "pre_start_events_scheduled", "runs_date_format_0", "runs_date_format_1", "runs_date_format_2", "runs_date_format_3", "runs_with_second_field_in_files"}},
 		func() []Monitor { return []Monitor{&monC10{}} }}
